@@ -202,6 +202,7 @@ fn main() {
             let mut rep = Report::new("C11");
             let mut rng = util::Rng::new(seed);
             p_vec::run_c11_one(eff_tier, &mut rng, &model, &mut rep, corpus);
+            p_vec::run_display(eff_tier, &mut rng, &model, &mut rep, &corpus_lines);
             p_cgrfile::run_cgr_files(false, eff_tier, &mut rng, &model, &mut rep, &corpus_lines, &work);
             // the Python binding has its own copy of the CGR loop (same property, same anchors)
             let py_corpus: Vec<String> = corpus_lines.iter().filter(|l| l.starts_with("cgr ") || l.starts_with("cbatch ")).cloned().collect();
